@@ -99,6 +99,16 @@ def temperature_profile(rng, p):
     return T
 
 
+def mixed_phase_oracle(T):
+    """Murphy and Koop (2005) over ice and liquid water, blended quadratically between T_t - 23 K and T_t (IFS)."""
+    T = np.asarray(T, dtype=float)
+    ice = np.exp(9.550426 - 5723.265 / T + 3.53068 * np.log(T) - 0.00728332 * T)
+    wat = np.exp(54.842763 - 6763.22 / T - 4.21 * np.log(T) + 0.000367 * T
+                 + np.tanh(0.0415 * (T - 218.8)) * (53.878 - 1331.22 / T - 9.44523 * np.log(T) + 0.014025 * T))
+    w = np.clip((T - TT + 23.0) / 23.0, 0.0, 1.0)
+    return np.where(T >= TT, wat, np.where(T <= TT - 23.0, ice, ice + (wat - ice) * w ** 2))
+
+
 def mag(ys, xs):
     """sum of the magnitudes of the terms of the trapezoidal sum: the scale of its rounding error"""
     ys, xs = np.abs(np.asarray(ys, float)), np.abs(np.asarray(xs, float))
@@ -559,7 +569,14 @@ def law_sweep(ctx, mc, atm, only=None):
             bshape[axis] = n
             T = (rng.uniform(255, 305, [s if j != axis else 1 for j, s in enumerate(shape)]) * (p.reshape(bshape) / p[0]) ** 0.19
                  + rng.normal(0, 0.5, shape))
-            es = np.asarray(call(atm.e_eq_mixed_mk, T.reshape(-1))).reshape(shape)
+            if c % 3 == 1:      # levels exactly on the two regime boundaries of the mixed phase (triple point, 23 K below)
+                flat = T.reshape(-1)
+                for j, b in zip(rng.choice(flat.size, size=min(2, flat.size), replace=False), (TT, TT - 23.0)):
+                    flat[j] = b
+                T = flat.reshape(shape)
+            # the saturated profile comes from the published Murphy-Koop / IFS formulas written out here, not from the
+            # library's own e_eq_mixed_mk: numerator and denominator must not share a defect of that function
+            es = mixed_phase_oracle(T)
             qs = np.asarray(call(atm.water_vapor_pressure2specific_humidity, es, p.reshape(bshape)))
             kw = {} if rank == 1 else {"axis": axis}
             want_shape = tuple(s for j, s in enumerate(shape) if j != axis)
